@@ -119,6 +119,8 @@ def leaf_case(kind, pre, name, shape, key, L, known=None):
         # no str items/keys: a str datum would be %-formatted with the symbolic argument (realises it)
         doc = {"value": "[u1, 0, 6, [1], {'k': 0, 1: 2}]", "key": "{3: u1, 2: 0, 0: 1, None: 2}", "index": "[u1, 0, 'a']"}[kind]
         dparams = [("u1", "Union[int, bool, None]")]
+    if sid == "default_tol":
+        dparams = [("u1", "Union[bool, None, str]")]   # the default tolerance is a float: no symbolic int leaf against it
     params = list(params) + dparams
     cls = {("value", None): "Value", ("value", "length"): "Value.length", ("value", "dtype"): "Value.dtype", ("key", None): "Key",
            ("key", "length"): "Key.length", ("key", "dtype"): "Key.dtype", ("index", None): "Index"}[(kind, pre)]
@@ -163,6 +165,26 @@ def cases(ctx):
             for sh in shs:
                 for sp in sps:
                     out.append(leaf_case(kind, pre, name, sh, sp, L))
+    # history: the outcome of a parse must not depend on what was parsed before it in the process
+    seqs = [
+        [("value.length.eq", "n", "Value.length.equal_to(n)"), ("value.keys_contain", "'k'", "Value.keys_contain('k')"), ("value.dtype.in", "['int']", "Value.dtype.in_([int])"), ("value.items_contain", "{'k': n}", "Value.items_contain(k=n)")],
+        [("key.dtype.eq", "'str'", "Key.dtype.equal_to(str)"), ("key.keys_contain_any_of", "['k']", "Key.keys_contain_any_of('k')"), ("key.len.lt", "n", "Key.length.less_than(n)"), ("key.required_keys", "['k', 'j']", "Key.required_keys('k', 'j')")],
+        [("value.keys_contain", "'k'", "Value.keys_contain('k')"), ("value.length.gt", "n", "Value.length.greater_than(n)"), ("value.allowed_keys", "['k']", "Value.allowed_keys('k')")],
+        [("index.lt", "n", "Index.less_than(n)"), ("value.type.eq", "'int'", "Value.dtype.equal_to(int)"), ("value.keys_equal_to", "['k']", "Value.keys_equal_to('k')"), ("index.in", "[n, 1]", "Index.in_([n, 1])")],
+        [("value.is_instance", "['int']", "Value.is_instance(int)"), ("value.dtype.eq", "'int'", "Value.dtype.equal_to(int)"), ("value.is_instance", "['str', 'int']", "Value.is_instance(str, int)"), ("value.keys_is_instance", "['str']", "Value.keys_is_instance(str)")],
+    ]
+    for sn, seq in enumerate(seqs):
+        for order in ("fwd", "rev"):
+            items = seq if order == "fwd" else list(reversed(seq))
+            lines = "\n".join(
+                f"ok = ok and note('parse #{i} ({k}) equals the DSL-built condition', ConditionLike.from_spec({{{k!r}: {v}}}) == {dsl})"
+                for i, (k, v, dsl) in enumerate(items))
+            body = f"""
+ok = True
+{lines}
+return ok
+"""
+            out.append(mk_case(f"c09.history.{sn}.{order}", [("n", "int")], body, pre=["I64(n)"], stubs=["sym_repr"]))
     # and/or/xor lists with mixed-case leaf keys, nested to depth 2
     for op1 in ("and", "or", "xor"):
         for op2 in ("and", "or", "xor"):
